@@ -43,6 +43,17 @@ func vC06Reduce(nparts int, kinds int, order bool, compl bool) {
 		vAssert("order", vImplies(both, (vFirst(in, x) < vFirst(in, x2)) == (vFirst(os, x) < vFirst(os, x2))))
 	}
 	vAssert("arity-not-grown", len(os) <= len(in))
+	// ranges are only ever merged when they abut: a residue denoted twice by overlapping ranges
+	// (join(1..5,5..8)) stays denoted twice; duplicates are dropped only for points and sites
+	allRanged := true
+	for _, a := range in {
+		if a.kind != vkRanged {
+			allRanged = false
+		}
+	}
+	if allRanged {
+		vAssert("ranges-keep-multiplicity", vLenA(os) == vLenA(in))
+	}
 	// markers: reduction never invents a marker
 	i5, i3 := vMarkerCounts(in)
 	o5, o3 := vMarkerCounts(os)
@@ -115,17 +126,19 @@ func vC06PrintParse(fam int, kinds int, cap int) {
 	vObserve("len", len(s))
 }
 
-//verif:harness prop=C06 quick=11 thorough=16 merge=concrete
-//verif:bounds print->parse: constructor-built locations, every partial combination; quick: atoms with coordinates in [0,999], 2-part families 1..5 and the nested families 16..20 (complement of a join inside a join/order, order inside order, join inside order; ranged/point parts) with coordinates in [0,8] (one digit); thorough: atoms in [0,99999], 2-part families in [0,99], 3-part families 6..10 and nested 16..20 in [0,8]; String() via the decimal-digit model, AsLocation via the real pars parser
+//verif:harness prop=C06 quick=12 thorough=16 merge=concrete
+//verif:bounds print->parse: constructor-built locations, every partial combination; quick: atoms with coordinates in [0,999], 2-part families 1..5 and the nested families 16..20 (complement of a join inside a join/order, order inside order, join inside order; ranged/point parts) and the 3-part join of all four kinds, with coordinates in [0,8] (one digit); thorough: atoms in [0,99999], 2-part families in [0,99], 3-part families 6..10 and nested 16..20 in [0,8]; String() via the decimal-digit model, AsLocation via the real pars parser
 func VH_C06_print_parse() {
-	n := vFamS1 + 5
-	base := vFamS1
+	// families per shard; quick: atoms and 2-part shapes, the nested shapes, and the 3-part join
+	quick := []int{0, 1, 2, 3, 4, 5, 16, 17, 18, 19, 20, 6}
+	thorough := []int{0, 1, 2, 3, 4, 5, 6, 7, 8, 9, 10, 16, 17, 18, 19, 20}
+	fams := quick
 	if vTier() == 1 {
-		n, base = vFamS2+5, vFamS2
+		fams = thorough
 	}
-	fam := vShard(n)
-	if fam >= base {
-		vC06PrintParse(fam-base+16, 2, 8)
+	fam := fams[vShard(len(fams))]
+	if fam >= 16 {
+		vC06PrintParse(fam, 2, 8)
 		return
 	}
 	cap := 8
